@@ -756,6 +756,36 @@ func uReuse(o *uOut, r *u.Rng) {
 	o.dist["reuse"]++
 }
 
+// uObserveGreaseVersion: observation only (INFO). version_information with VERSION_GREASE
+// (all built-in parrots) re-draws the GREASE version on every Value() call, so ClientOverride
+// (marshalled by PopulateFromUQUIC) and the bytes uTLS caches for the ClientHello differ in
+// that word; ClientOverride is not sent by a client. Also: uTLS forms the GREASE version as
+// rand|0x0a0a0a0a, which is not always of the reserved form 0x?a?a?a?a.
+func uObserveGreaseVersion(o *uOut) {
+	l := tls.TransportParameters{&tls.VersionInformation{ChoosenVersion: tls.VERSION_1, AvailableVersions: []uint32{tls.VERSION_GREASE, tls.VERSION_1}, LegacyID: true}}
+	diff, odd := 0, 0
+	var ex string
+	for i := 0; i < 20; i++ {
+		tp := &wire.TransportParameters{}
+		ext := &tls.QUICTransportParametersExtension{TransportParameters: l}
+		if ok, _ := uPopulate(tp, l); !ok {
+			return
+		}
+		body, err := uWireOf(ext)
+		if err != nil {
+			return
+		}
+		if !bytes.Equal(body, tp.ClientOverride) {
+			diff++
+			ex = fmt.Sprintf("override=%x wire=%x", tp.ClientOverride, body)
+		}
+		if len(body) >= 13 && (body[9]&0x0f != 0x0a || body[10]&0x0f != 0x0a || body[11]&0x0f != 0x0a || body[12]&0x0f != 0x0a) {
+			odd++
+		}
+	}
+	fmt.Fprintf(o.w, "INFO\tobservation: version_information with a GREASE version: ClientOverride != extension bytes in %d of 20 runs (%s); GREASE version not of the form 0x?a?a?a?a in %d of 20\n", diff, ex, odd)
+}
+
 // uDistribution: support for the distribution claim: every permutation of lists of 2..5
 // distinct parameters is produced, position frequencies within a chi-square bound.
 func uDistribution(o *uOut, r *u.Rng, thorough bool) {
@@ -847,6 +877,7 @@ func runUSpec(w *bufio.Writer, seed uint64, n int, _ []string) {
 			guard("reuse", uReuse)
 		}
 	}
+	uObserveGreaseVersion(o)
 	uDistribution(o, r, os.Getenv("VERIF_TIER") == "thorough")
 	keys := make([]string, 0, len(o.dist))
 	for k := range o.dist {
